@@ -404,7 +404,7 @@ func runC02(r *core.Run) {
 		mu.Unlock()
 	}
 	if r.Variant == "" {
-		for _, v := range append([]string{"decfirst@3", "decfirst+rev@1", "rev@6", "warm@2", "atinit+burst@1", "atinit+burst@16", "atinit+burst@2"}, burstVariants...) {
+		for _, v := range append([]string{"decfirst@3", "decfirst+rev@1", "rev@6", "warm@2", "atinit+burst@1", "atinit+burst@16", "atinit+burst@2", "imgfirst@4", "imgfirst+rev@16"}, burstVariants...) {
 			r.RunVariantChild(v, 10*time.Minute, false)
 		}
 		nfp := len(c02FirstPoints())
@@ -412,7 +412,7 @@ func runC02(r *core.Run) {
 			r.RunVariantChild(fmt.Sprintf("firstpoint:%d@%d", k, 1+k%4), 5*time.Minute, false)
 		})
 		r.Obs("fresh_process_first_point_children", nfp)
-		r.Obs("fresh_process_variants", []string{"decfirst@3", "decfirst+rev@1", "rev@6", "warm@2", "atinit+burst@1", "atinit+burst@16", "atinit+burst@2"})
+		r.Obs("fresh_process_variants", []string{"decfirst@3", "decfirst+rev@1", "rev@6", "warm@2", "atinit+burst@1", "atinit+burst@16", "atinit+burst@2", "imgfirst@4", "imgfirst+rev@16"})
 	}
 	r.Obs("distinct_code_side_pairs_per_encoder", codesSeen)
 	r.Obs("quick_points_per_encoder", len(pts))
